@@ -12,6 +12,12 @@ type Body struct {
     inTree
 
     items nodeSet
+
+    // singleLineOpen is set for the body of a block that was written in the
+    // single-line form ("type { name = value }" or "type {}"). It is the node
+    // that holds the block's opening brace: a newline must follow that brace
+    // before the body can hold more than the single argument.
+    singleLineOpen *node
 }
 
 func newBody() *Body {
@@ -22,9 +28,39 @@ func newBody() *Body {
 }
 
 func (b *Body) appendItem(c nodeContent) *node {
+    b.startNewLine()
     nn := b.children.Append(c)
     b.items.Add(nn)
     return nn
+}
+
+// startNewLine makes sure that an item appended to the body starts on a line
+// of its own: the last existing item may lack its newline (last line of a file
+// without a final newline, a trailing comment, a single-line block), in which
+// case the new item would otherwise be glued to it.
+func (b *Body) startNewLine() {
+    if b.singleLineOpen != nil {
+        if toks, isToks := b.singleLineOpen.content.(Tokens); isToks {
+            b.singleLineOpen.content = append(toks[:len(toks):len(toks)], &Token{
+                Type:  hclsyntax.TokenNewline,
+                Bytes: []byte{'\n'},
+            })
+        }
+        b.singleLineOpen = nil
+    }
+
+    toks := b.children.BuildTokens(nil)
+    if len(toks) == 0 {
+        return
+    }
+    last := toks[len(toks)-1]
+    switch {
+    case last.Type == hclsyntax.TokenNewline:
+        return
+    case last.Type == hclsyntax.TokenComment && len(last.Bytes) > 0 && last.Bytes[len(last.Bytes)-1] == '\n':
+        return
+    }
+    b.AppendNewline()
 }
 
 func (b *Body) appendItemNode(nn *node) *node {
